@@ -914,7 +914,7 @@ func judgeC10(c *Ctx, sc *Scenario) *Violation {
 		if v := judgeOutcome(res, nil, true, "invalid input ("+p.Invalid+") args="+fmt.Sprintf("%q", sc.Inv.Args), false); v != nil {
 			return v
 		}
-		if os.Getenv("VERIF_GITSIZER_BIN") != "" && (p.EngineB || fnv64(sc.Hash())%2 == 0) {
+		if os.Getenv("VERIF_GITSIZER_BIN") != "" && (p.EngineB || fnv64(sc.Hash())%2 == 0 || len(res.Run.Unmodelled) > 0) {
 			// the same command line judged by real processes: real git decides
 			// what its own options make of the invalid input
 			b := *sc
@@ -990,7 +990,7 @@ func judgeC10(c *Ctx, sc *Scenario) *Violation {
 			if v := judgeOutcome(res, nil, true, why, false); v != nil {
 				return v
 			}
-			if os.Getenv("VERIF_GITSIZER_BIN") != "" && fnv64(sc.Hash())%2 == 0 {
+			if os.Getenv("VERIF_GITSIZER_BIN") != "" && (fnv64(sc.Hash())%2 == 0 || len(res.Run.Unmodelled) > 0) {
 				// real git on the same damaged object store
 				b := *sc
 				b.Plan = Plan{}
